@@ -3,6 +3,8 @@ import Zrnt.Prelude.Text
 import Zrnt.Sha256
 import Zrnt.SSZ.Merkle
 import Zrnt.Schema.Spec
+import Zrnt.Schema.Denote
+import Zrnt.Gen.SszFacts
 /-! `zmodel ssz`: the generic SSZ functions at the SPECIFICATION schema, as an oracle for the Go types.
 
     keys K1,K2,…                      the configuration keys the harness will send, in order
@@ -51,12 +53,31 @@ def tyOf (name cfg : String) : Option Ty :=
   | some st, some c => some (st.eval c)
   | _, _ => none
 
-def decodeLine (t : Ty) (bs : Bytes) : String :=
+def specLine (t : Ty) (bs : Bytes) : String :=
   match decode t bs with
   | none => "err"
   | some v =>
     if encode t v != bs then "model-noncanonical"
     else s!"ok len={byteLength t v} fixed={t.fixedLen} htr={hexOf (htr sha2 t v)}"
+
+/-- Hand-written models of bespoke leaf code, printed as the `model` column (`model | spec`) where they apply:
+* bitlist types: acceptance by the model of `common.ReadBitList` + `BitlistCheck` (`goReadBitList`);
+* byte-array types whose `HashTreeRoot` is a hand-written tree in the regenerated facts: that tree evaluated on the bytes.
+Theorems (`goReadBitList_eq_decode`, `htOk_sound`) say the two columns coincide. -/
+def decodeLine (name : String) (t : Ty) (bs : Bytes) : String :=
+  let spec := specLine t bs
+  match t with
+  | .bitlist lim =>
+    (if goReadBitList lim bs then spec else "err") ++ " | " ++ spec
+  | .bytesN n =>
+    match Zrnt.Gen.SszFacts.types.find? (·.name == Name.ofString name) with
+    | some T =>
+      match T.hashTreeRoot with
+      | .htrTree _ ht =>
+        (if bs.length = n then s!"ok len={n} fixed={n} htr={hexOf (Facts.htEval sha2 bs ht)}" else "err") ++ " | " ++ spec
+      | _ => spec
+    | none => spec
+  | _ => spec
 
 def sszLine (line : String) : String :=
   match tokens line with
@@ -67,7 +88,7 @@ def sszLine (line : String) : String :=
     | none => "bad-op"
   | ["d", _, name, cfg, hex] =>
     match tyOf name cfg, parseHex hex with
-    | some t, some b => decodeLine t b.data.toList
+    | some t, some b => decodeLine name t b.data.toList
     | _, _ => "bad-op"
   | ["st", _, name, cfg, claimed, hex] =>
     match tyOf name cfg, parseHex hex with
